@@ -129,6 +129,15 @@ def iban_verdict(bank_code: str, account: str):
     if k0 != "ok":
         return "skipped", text
     k, v = lib.iban_parse(text, True)
+    # the same request spelled in other ways must give the same answer
+    for name, f in (("validate_bban=1", lambda: lib.IBAN(text, validate_bban=1)),
+                    ("validate(True) of the unvalidated object", lambda: lib.IBAN(text, allow_invalid=True).validate(True)),
+                    ("validate(validate_bban=1)", lambda: lib.IBAN(text).validate(validate_bban=1)),
+                    ("from_bban", lambda: lib.IBAN.from_bban("DE", bban, validate_bban=True)),
+                    ("BBAN.validate_national_checksum", lambda: lib.BBAN("DE", bban).validate_national_checksum())):
+        k2, v2 = lib.outcome(f)
+        if k2 == "foreign" or (k2 == "ok") != (k == "ok"):
+            return f"foreign:{name} answers {k2}:{v2 if k2 != 'ok' else 'accept'} but IBAN(t, validate_bban=True) {k}", text
     return (True if k == "ok" else (False if k == "lib" else f"foreign:{v}")), text
 
 
